@@ -244,7 +244,13 @@ impl<'a> Evaluator<'a> {
                     SymbolData::Placeholder => None,
                 }))
             }
-            ExpressionFactor::Number { value: number, .. } => Ok(Some(number.data.value().into())),
+            ExpressionFactor::Number { value: number, .. } => match number.data.try_value() {
+                Some(value) => Ok(Some(value.into())),
+                None => Err(EvaluationError {
+                    span: number.span,
+                    message: format!("number is too large: {}", number.data),
+                }),
+            },
             ExpressionFactor::InterpolatedString(i) => {
                 Ok(Some(SymbolData::String(self.interpolate(i, track_usage)?)))
             }
